@@ -1,6 +1,6 @@
 """C02 — an 'invalid' verdict comes with a genuine countermodel.  Hypotheses of the paper lemma L-HINTIKKA."""
 from __future__ import annotations
-import random
+import random, itertools
 import z3
 from pyvc import source
 from pyvc.interp import Interp, explore, Outside, PyExc, SymVal, Contract, GenList
@@ -247,7 +247,7 @@ def serial_saturation(logic, funcs):
                     same = it.fork(it.fresh_bool('last_entry_is_serial_on_this_branch'))
                     n_['last_is_self'] = same
                     from checks.structs import Holder
-                    n_['last_entry'] = Holder(rule=(s.rm if same else 'other-rule'), target=Holder(branch=(s.br if same else 'other-branch')))
+                    n_['last_entry'] = Holder(rule=(s.rm if same else 'other-rule'), target=Holder(branch=(s.br if same else 'other-branch'), world=WorldTok('served'), world1=WorldTok('served'), world2=WorldTok('created')))
                 return n_['last_entry']
             def sym_getitem(s, it, k):
                 if s._empty(it): raise PyExc(IndexError, ('history is empty',))
@@ -292,7 +292,8 @@ def serial_saturation(logic, funcs):
             if path.notes.get('maxworlds'): reasons.append('world limit reached (no flag node is added)')
             elif path.notes.get('last_is_self'):
                 # declining right after its own application is justified only when no successor-less world carries a sentence
-                qs = [q for q in path.notes.get('queries', []) if q[0] == 'branch.has']
+                # ... i.e. the branch was asked about every successor-less world (here: the one world w the helper lists) and holds no node at it
+                qs = [q for q in path.notes.get('queries', []) if q[0] == 'branch.has' and isinstance(q[1], dict) and any(getattr(v, 'name', None) == 'w' for v in q[1].values())]
                 if qs and all(q[2] is False for q in qs): reasons.append('world limit: n/a; no successor-less world carries a sentence (only the world this rule just created is unserved)')
                 else: reasons.append('the last step was the serial rule on this branch (termination heuristic)')
             elif path.notes.get('maxworlds'): reasons.append('world limit reached (no flag node is added)')
@@ -421,6 +422,10 @@ def modal_family():
             for c in concl:
                 yield c + ':' + ':'.join(ps)
 
+def nested_family():
+    "arguments whose worlds are created in several rounds (a possibility under a necessity under a possibility ...)"
+    return ['c:Ma:MLMLb', 'Lb:MLLAaa', 'c:Ma:AMLMLbMLMLb', 'c:MLMLb', 'c:Ma:Mb:MLMLb', 'Lb:MLMLAaa', 'c:MLMLMLb', 'Lc:Ma:MLLb']
+
 def replay_saturation(r):
     "search the structured modal family for a limit-free open branch of the real prover whose own model fails a node of the branch"
     from pytableaux.lang import Argument
@@ -431,7 +436,7 @@ def replay_saturation(r):
     if not logic.Meta.modal: return dict(reproduced=None, detail='see counterexample / meta')
     sem = S.spec_of(L)
     n = 0
-    for astr in modal_family():
+    for astr in itertools.chain(nested_family(), modal_family()):
         n += 1
         o, tab = P.outcome(logic, Argument(astr), is_build_models=True)
         if o != 'invalid': continue
